@@ -289,12 +289,13 @@ Proof.
     rewrite IH. destruct (mapM parseT _); [|reflexivity]. rewrite <- !app_assoc. reflexivity.
 Qed.
 
-(* the table reader, on what the table writer wrote, does what the JSON reader does on the JSON document
+(* the table reader, on what the table writer wrote, does what the UNVALIDATED core of the JSON reader
+   (read_sv_core: the JSON reader before a328708; Import still calls NewSparse* directly) does on the JSON document
    of the same vector (tokens printed by fmtT) *)
 Lemma sv_table_is_json (v : svec E) p :
   text_prefix p ->
   import_sv F T nz parseT parseI (plain_file p (export_sv F T fmtT fmtI E eval enul v)) =
-  (d <- write_sv F T (fun x => Some (fmtT x)) E eval enul v ;; read_sv F T nz parseT d).
+  (d <- write_sv F T (fun x => Some (fmtT x)) E eval enul v ;; read_sv_core F T nz parseT d).
 Proof.
   intros Hp. unfold import_sv, open_table, plain_file; simpl. rewrite (is_gzip_text p Hp); simpl.
   unfold import_sv_stream, closing, export_sv; simpl. rewrite int_roundtrip. simpl.
@@ -302,7 +303,7 @@ Proof.
   set (live := sv_live E enul v).
   assert (Hm : mapM (fun x => Some (fmtT x)) (map (fun kv => eval (snd kv)) live) = Some (map (fun kv => fmtT (eval (snd kv))) live)).
   { induction live as [|kv l IH]; simpl; [reflexivity|]. rewrite IH. reflexivity. }
-  rewrite Hm. simpl. unfold read_sv, parse_list; simpl.
+  rewrite Hm. simpl. unfold read_sv_core, parse_list; simpl.
   destruct (mapM parseT (map (fun kv => fmtT (eval (snd kv))) live)) as [xs|] eqn:Ex; simpl; [|reflexivity].
   assert (Hl : zlen (map fst live) = zlen xs).
   { apply mapM_length in Ex. unfold zlen. rewrite Ex, !map_length. reflexivity. }
@@ -321,7 +322,7 @@ Lemma sv_table_roundtrip (v : svec E) p :
 Proof.
   intros Hp Hwf. rewrite (sv_table_is_json v p Hp).
   destruct (write_sv F T (fun x => Some (fmtT x)) E eval enul v) as [d| | |] eqn:Hw.
-  - simpl. eapply (sv_roundtrip F T zero nz (fun x => Some (fmtT x)) parseT nz_zero); try eassumption.
+  - simpl. eapply (sv_core_roundtrip F T zero nz (fun x => Some (fmtT x)) parseT nz_zero); try eassumption.
     intros x t Hx. inversion Hx; subst. apply tok_roundtrip.
   - exfalso. unfold write_sv, fmt_list in Hw.
     assert (Hm : forall l : list F, mapM (fun x => Some (fmtT x)) l = Some (map fmtT l))
